@@ -80,6 +80,9 @@ func genC07Tasks(r *Rng, g *Gen, w *World, nt int) {
 func (propC07) Gen(r *Rng, tier string) *World {
 	k := DrawKnobs(r)
 	k.NowOp = r.P(0.3)
+	if k.Budget > 0 { // program size is not what this property is about; keep worlds small and many
+		k.Budget, k.MaxDepth, k.MaxFan, k.PLeaf = 0, 5, 4, 0.2
+	}
 	if k.NVars < 2 {
 		k.NVars = r.Range(2, 6)
 	}
